@@ -81,6 +81,10 @@ def h_elig(kind: int, drv: int, e: float, mv: int, mr: int, assigned: bool) -> b
     m_r = 0 if mr == 0 else (1 if mr == 1 else 2)
     if k is None or m_v is None:
         return True
+    # requests the loader would not have admitted (update_requests_from_iterator): a request with a fleet when no
+    # fleets are configured, or a request without a fleet when fleets are configured
+    if (len(fleets) == 0) != (m_r == 0):
+        return True
     cell = 0 if k == 3 else (1 if k in (5, 6) else 3)
     # the arena's DispatchTrip targets r0; here the vehicle under test is busy with another request r1
     spec = A.VSpec("v0", k, cell, plug="LEVEL_2", memb=m_v, energy=e)
